@@ -3,6 +3,11 @@
 import json, sys
 ALL = [f"C{i:02d}" for i in range(1, 21)]
 CLAIMED = {
+ "C20": dict(
+   technique="differential testing over generated pure core computations: plain run vs @[monadic] block instantiated at the identity monad (and at Reader Unit), cross-checked against the reference machine",
+   text="Exploration. Type-directed generation of closed returning computations in the fragment the algebra translation supports (ret, do, fn/application incl. redexes, thunks/force, transparent data with exhaustive matches incl. nested and wildcard arms, tuple/alias patterns, lets, calls to let-bound thunks) with a printable result type; one program runs the body plain, then the @[monadic] block at (Ret, return = ret, bind = run then continue), then at Reader Unit; the identity result must equal the plain result (which must equal the reference machine's), and no instantiation may go wrong; refused blocks are counted discards.",
+   note="bodies are effect free (host operations cannot be referenced inside a block), so evaluation-order changes are visible only through values; a differing Reader result is counted, not reported",
+   ref="§3 C20"),
  "C04": dict(
    technique="exhaustive small-scope enumeration plus random generation of pattern matrices against a brute-force value-enumeration oracle; differential run of accepted matches against first-match semantics",
    text="Exploration. 20 catalogue types (sums, products in both groupings, unit, named fields, packages, recursive Nat/List, the empty type, nested mixes) x every list of <=3 rows over depth<=2 patterns (<=4 rows for small pattern sets in thorough), plus random composite types with rows from perturbed splitting partitions (depth<=4, <=14 rows), rendered as match, comatch argument patterns, or fn/let/do binders. Oracle: enumerate all values to depth max-pattern-depth+1 (canonical inhabitant below): accepted iff every value is matched; every reported CoveragePattern denotes an unmatched value; accepted rows run on <=48 enumerated values take the first matching row. Comatch: all arm sequences of length <=n+1 over 0-4 destructors: accepted iff each exactly once, reported missing/duplicate destructors truthful, each arm selected at run time.",
